@@ -270,7 +270,12 @@ def runParseOp (inp out : Json) : Json :=
     [{ prop := "C18", code := "panic:traverse", detail := panic }, { prop := "C01", code := "panic", detail := panic }] else []
   let fails := crash ++ c01.take 2 ++ c01b ++ c07.take 2 ++ c07b.take 1 ++ subFails.take 1
   Json.mkObj [("same", Json.bool (ruleDiff.isNone && slotDiff.isNone)), ("diff", Json.str ((ruleDiff.getD "") ++ (slotDiff.getD ""))),
-              ("aspects", Json.mkObj [("C01", Json.bool slotDiff.isNone), ("C07", Json.bool ruleDiff.isNone)]),
+              -- C06: where the model says the parser's error is shown, the real answer carries a message
+              ("aspects", Json.mkObj [("C01", Json.bool slotDiff.isNone), ("C07", Json.bool ruleDiff.isNone),
+                                      ("C06", Json.bool (panic != "" ||
+                                        (match traverseSlot (toTTree cmds) (cmds.size + 2) 0 (words.dropLast.map String.toList) cur.toList with
+                                         | .message => (jarr ex "messages").size > 0
+                                         | _ => true)))]),
               ("fails", Json.arr (fails.map afailJson).toArray),
               ("feat", Json.mkObj [("slot", Json.str (match traverseSlot (toTTree cmds) (cmds.size + 2) 0 (words.dropLast.map String.toList) cur.toList with
                                       | .message => "message" | .dash .. => "dash" | .flagValue .. => "flagValue" | .flagValueAttached .. => "flagValueAttached"
